@@ -378,6 +378,10 @@ def election_case(ctx, gt, lines, pend, elines, expect):
         rows1, err1 = lib_read(text1)
         elines.append("csvwrite R=" + Cm.enc_rows(rows1))
         expect.append({"kind": "write", "what": f"[election text] csvwrite of the rows of {_short(text1, 120)}", "impl": text1})
+    if not ok and gmpy_only_number_cell(text1):
+        # a bare carriage return has split a row of the written file (excluded by RowsOK): what the pieces hold is not a file any more
+        ctx.count("csv.c.broken_file", "not compared: written text broken by a bare \\r holds a cell that only gmpy2 reads as a number")
+        return text1
     lines.append("pabulibtext T=" + Cm.esc(text1))
     pend.append({"stream": "csv", "rows": None, "impl": r1[:2], "lib_written": lib_written, "label": "text of generated " + gt["vtype"]})
     return text1
@@ -411,9 +415,35 @@ def lenient_number_cell(text):
     return False
 
 
+def gmpy_only_number_cell(text):
+    """does a text that is NOT a well-formed file hold a cell that gmpy2.mpq reads as a number although it is none of the forms
+    the model reads?  Besides the exponent prefix above, mpq skips white space anywhere between the digits: '2\n017' -- a quoted
+    cell that lands in the cost column when a bare carriage return in an earlier field has split the row -- is 2017 for the
+    library and not a number for the model (false alarm at seed 202).  Such a text is outside the domain of both (TRUSTED of
+    C11: gmpy2's number parsing is modelled on the forms a well-formed file holds); the two answers are not compared."""
+    from gmpy2 import mpq
+
+    if lenient_number_cell(text):
+        return True
+    try:
+        rows = list(csv.reader(io.StringIO(text, newline=""), delimiter=";"))
+    except csv.Error:
+        return False
+    for row in rows:
+        for cell in row:
+            for s in (cell, cell.replace(",", ".")):
+                if s and not _MODEL_NUMBER.match(s):
+                    try:
+                        mpq(s)
+                        return True
+                    except Exception:  # noqa: BLE001
+                        pass
+    return False
+
+
 def broken_file_case(ctx, text, lines, pend):
     ctx.evaluations += 1
-    if lenient_number_cell(text):
+    if gmpy_only_number_cell(text):
         ctx.count("csv.c.broken_file", "not compared: a cell that only gmpy2 reads as a number")
         return
     r = lib_parse(text)
